@@ -4,6 +4,7 @@ CONSTANTS
   Reqs = {"gai0", "gai4", "gai6", "ghbn4"}
   Shapes = {"one", "three", "cname2", "nodata", "nx"}
   QCacheSet = {3600}
+  V6Src = 0
   SortLists = {""}
   Repeat = 1
   MaxRep = 4
